@@ -326,12 +326,12 @@ func Run(tier string, sh lib.Shard, rep *lib.Report) {
 	prop := rep.Property
 	depth := 7
 	if tier == "thorough" {
-		depth = 9
+		depth = 8
 	}
 	if prop == "C12" {
 		depth = 6
 		if tier == "thorough" {
-			depth = 9
+			depth = 8
 		}
 	}
 	cfgs := configs(prop, tier)
